@@ -7,7 +7,11 @@ package main
 import (
 	"flag"
 	"fmt"
+	"io"
+	"log"
 	"os"
+
+	"go.etcd.io/raft/v3"
 
 	"verif/harness/internal/report"
 )
@@ -24,6 +28,9 @@ func main() {
 		runQuorum(res, *tier, *seed, *replay)
 	case "confchange":
 		runConfChange(res, *tier, *seed, *replay)
+	case "log":
+		raft.SetLogger(&raft.DefaultLogger{Logger: log.New(io.Discard, "", 0)})
+		runLog(res, *tier, *seed, *replay)
 	default:
 		fmt.Fprintf(os.Stderr, "unknown suite %q\n", *suite)
 		os.Exit(2)
